@@ -24,9 +24,10 @@ THEOREMS = [
     'Pyiga.Props.C15.reindex_from_reordered_two_level', 'Pyiga.Props.C15.raveled_cartesian_product_refines',
     'Pyiga.Props.C15.row_spec', 'Pyiga.Props.C15.rows_spec', 'Pyiga.Props.C15.kron_partial_spec',
     'Pyiga.Props.C15.sparsity_from_kvs',
+    'Pyiga.Props.C15.matvec_refines', 'Pyiga.Props.C15.asmatrix_preserves_matvec', 'Pyiga.Props.C15.matvec_length',
 ]
 MODULES = ['Pyiga.Model.Index', 'Pyiga.Model.MLMatrix', 'Pyiga.Proofs.Index', 'Pyiga.Proofs.MLMatrix',
-           'Pyiga.Proofs.MLMatrix2', 'Pyiga.Proofs.MLRows', 'Pyiga.Proofs.MLSparsity', 'Pyiga.Props.C15']
+           'Pyiga.Proofs.MLMatrix2', 'Pyiga.Proofs.MLRows', 'Pyiga.Proofs.MLSparsity', 'Pyiga.Proofs.MLMatvec', 'Pyiga.Props.C15']
 
 
 def fmt_pairs(I, J):
